@@ -29,13 +29,14 @@ func isTerminator(b int) bool {
 type probeCase struct {
 	ctx    string
 	prefix string
-	b      int // -1: no extra byte (EOF right after the prefix)
+	b      int    // -1: no extra byte (EOF right after the prefix)
+	tail   string // what follows the byte (dead-word probes)
 }
 
 func (p probeCase) bytes() []byte {
 	s := p.ctx + p.prefix
 	if p.b >= 0 {
-		return append([]byte(s), byte(p.b))
+		return append(append([]byte(s), byte(p.b)), p.tail...)
 	}
 	return []byte(s)
 }
@@ -83,6 +84,7 @@ func C13(c *fw.Ctx) {
 	for _, cx := range contexts {
 		frontier := []string{""}
 		completed := map[string]bool{}
+		var dead []string // words rejected at their last byte
 		for depth := 0; depth <= 12 && len(frontier) > 0; depth++ {
 			var cases []probeCase
 			for _, p := range frontier {
@@ -150,6 +152,9 @@ func C13(c *fw.Ctx) {
 						next[word] = true
 						continue
 					}
+					if rejectedHere && (depth == 0 || len(dead) < 320) {
+						dead = append(dead, word)
+					}
 					if !rejectedHere {
 						c.Violate("keyword:error-not-at-first-deviating-byte", fmt.Sprintf("context %s: %q deviates at byte %d but the scanner gave lexeme=%q error@%d %s", cx.name, word, off+len(word)-1, pr.LexType, pr.ErrIndex, pr.ErrMsg), &fw.Replay{Observed: pr})
 					}
@@ -161,6 +166,47 @@ func C13(c *fw.Ctx) {
 			}
 			sort.Strings(frontier)
 			c.Inc("frontier_by_depth", fmt.Sprintf("%s/%02d", cx.name, depth+1), len(frontier))
+		}
+		// "any other byte sequence yields an error at the first deviating byte": whatever follows the deviating byte. Every dead
+		// word of depth 0 (a single byte that can start nothing) and 60 deeper ones are followed by each of the 256 bytes, by tails that
+		// are something elsewhere (the rest of a byte order mark, of other multi-byte characters, line ends, a directive), and - bytes
+		// above 0x7F, in three contexts - by all pairs of UTF-8 continuation bytes
+		{
+			sort.Strings(dead)
+			var dcases []probeCase
+			tails := []string{"\xbb\xbf", "\xbb\xbfGET /a\n", "\xbb\xbf\nGET /a\n", "\xa0", "\x80\xa8", "\x80\x8b", "\xbf\xbd", "\r\n", "\n", " ", "\nGET /a\n", " GET /a\n", "GET /a\n", "\x00", "\xff\xfe", "#\n", "//\n", "(\n", ")\n", "\"", "\\"}
+			for i, w := range dead {
+				if len(w) > 1 && i%5 != 0 {
+					continue
+				}
+				pre, last := w[:len(w)-1], int(w[len(w)-1])
+				for b := 0; b < 256; b++ {
+					dcases = append(dcases, probeCase{ctx: cx.text, prefix: pre, b: last, tail: string([]byte{byte(b)})})
+				}
+				for _, t := range tails {
+					dcases = append(dcases, probeCase{ctx: cx.text, prefix: pre, b: last, tail: t})
+				}
+				if len(w) == 1 && last >= 0x80 && (cx.name == "file-start" || cx.name == "after-directive" || cx.name == "after-block-comment") {
+					for b1 := 0x80; b1 < 0xc0; b1++ {
+						for b2 := 0x80; b2 < 0xc0; b2++ {
+							dcases = append(dcases, probeCase{ctx: cx.text, prefix: pre, b: last, tail: string([]byte{byte(b1), byte(b2)}) + "GET /a\n"})
+						}
+					}
+				}
+			}
+			dres := runProbes(c, pool, dcases, len(cx.text))
+			for i, pc := range dcases {
+				pr := dres[i]
+				c.Count(cx.name+"\x02"+pc.prefix+fmt.Sprint(pc.b)+pc.tail, true)
+				at := len(cx.text) + len(pc.prefix)
+				switch {
+				case pr.Panic != "":
+					c.Violate("panic:scan", fmt.Sprintf("context %s, input %q: %s", cx.name, pc.prefix+string([]byte{byte(pc.b)})+pc.tail, pr.Panic), &fw.Replay{Observed: pr})
+				case pr.ErrIndex != at || pr.LexType != "":
+					c.Violate("keyword:dead-word-with-tail", fmt.Sprintf("context %s: %q deviates at byte %d whatever follows; followed by %q the scanner gave lexeme=%q error@%d %s", cx.name, pc.prefix+string([]byte{byte(pc.b)}), at, pc.tail, pr.LexType, pr.ErrIndex, pr.ErrMsg), &fw.Replay{Observed: pr})
+				}
+			}
+			c.Inc("dead_word_probes", cx.name, len(dcases))
 		}
 		// terminator rule for every completed keyword
 		var cases []probeCase
